@@ -405,6 +405,15 @@ func c04Alphabet(s *sessSys) []sessReq {
 				mkEst("est-sdf0-peer0", p, f, q)
 				p, f, q = up4RuleSet(ue, teid, c04Peers[1], c04SDFs[0], 0, 0)
 				mkEst("est-sdf0-noqer-peer1", p, f, q)
+				// two QFIs in one session: default rules QFI 9, application rules QFI 5 (mapped / unmapped differ per configuration)
+				p, f, q = up4RuleSet(ue, teid, c04Peers[0], c04SDFs[0], 1, 0)
+				p[2].QERs, p[3].QERs = []uint32{2}, []uint32{2}
+				q = append(q, sQER{ID: 2, QFI: 5, MBRUL: 700, MBRDL: 800})
+				mkEst("est-sdf0-two-qfi-peer0", p, f, q)
+				// application rules listed ahead of the default rules
+				p, f, q = up4RuleSet(ue, teid, c04Peers[1], c04SDFs[0], 1, 0)
+				p = []sPDR{p[2], p[3], p[0], p[1]}
+				mkEst("est-sdf0-first-peer1", p, f, q)
 				if vEnv.Thorough {
 					p, f, q = up4RuleSet(ue, teid, c04Peers[0], c04SDFs[1], 2, 0)
 					mkEst("est-sdf1-2qer-peer0", p, f, q)
